@@ -1,4 +1,5 @@
 import FinProtoc.Lua
+import FinProtoc.Proofs.Dissect
 /-!
 # C15 — the Wireshark dissector attributes each field its true byte range
 
@@ -12,9 +13,17 @@ The emitted Lua is extracted into the dissector IR (`Lua.LProg`); `Lua.confDis S
   contains the message at any offset — running the canonical statements attributes exactly the declared
   ranges `Lua.rangesFields`, in order, and leaves the offset exactly behind the packet.
 
-The full statement (`dissect_sound`: prefixes, lists, nested and match payloads) is decided per run by the
-validator + the executable semantics on sampled messages; its proof needs the decode-of-encode lemmas of
-C02's staged round trip and is staged with it (DESIGN §8 C15) — hence `_partial`.
+* `dissect_sound` (round 4; `Proofs/Dissect.lean`, mutual induction over `Wire.encVal`): for every schema without match
+  fields, every dissector the validator accepts, every registry, every message of the root packet built from scalars,
+  fixed strings, length-of / checksum members, strings and lists that fit their prefixes and nested objects to any
+  depth, and every bytes following the message — running the emitted dissector over the canonical encoding shows
+  exactly `Lua.ranges` (each field at the offset and with the length it occupies on the wire, prefixes read with the
+  configured width and byte order, helpers found when called) and ends exactly behind the message.
+
+What stays outside the theorem is the match payload: the real generator drops the offset a payload's helper returns
+and reads a string key at its prefix (known findings `lua/match-call-drops-offset`, `lua/string-key-read-at-prefix`), so
+no emitted dissector of a schema with a match field is canonical; those schemas are decided per run by the validator
+and the executable semantics on sampled messages (`dissect_sound` needs `keyFree`).
 -/
 namespace FinProtoc.Props
 open FinProtoc FinProtoc.Lua
@@ -196,5 +205,97 @@ where
       cases runStmt bs call vis x s with
       | none => simp
       | some s' => simp [ih]
+
+/-- what `confDis` provides to the proof -/
+theorem env_of_conf {S : Schema} {snake : String → String} {D : LProg} (hconf : confDis S snake D = true) : Env S snake D := by
+  unfold confDis at hconf
+  simp only [Bool.and_eq_true, decide_eq_true_eq] at hconf
+  obtain ⟨⟨⟨hall, hord⟩, _⟩, _⟩ := hconf
+  refine ⟨?_, hord⟩
+  intro q p hfind hroot
+  have hp : p ∈ S.packets := List.mem_of_find?_eq_some hfind
+  have hname : p.name = q := by
+    have := List.find?_some hfind
+    simpa using this
+  have h1 := List.all_eq_true.mp hall p hp
+  simp only [hroot, Bool.false_eq_true, if_false] at h1
+  rw [hname] at h1
+  cases hf : D.funcs.find? (fun g => decide (g.name = fnName snake q)) with
+  | none => simp [hf] at h1
+  | some f =>
+    simp only [hf, decide_eq_true_eq] at h1
+    exact ⟨f, rfl, h1⟩
+
+/-- C15 for every schema without match fields: the accepted dissector, run over the canonical encoding of any message
+(followed by anything), shows exactly the declared ranges and ends exactly behind the message. -/
+theorem dissect_sound (S : Schema) (snake : String → String) (D : LProg) (reg : Registry)
+    (hconf : confDis S snake D = true) (hkf : keyFree S = true)
+    (pkt : String) (p : Packet) (hfind : S.find pkt = some p) (hroot : p.root = true)
+    (vs : List Val) (hdom : dFields S p.fields vs = true)
+    (wire : Bytes) (henc : Wire.enc S reg pkt vs [] = some wire) (suf : Bytes) (fuel : Nat) (hfuel : depthList vs ≤ fuel) :
+    ∃ rs, ranges S snake pkt vs = some (rs, wire.length) ∧ dissect D fuel (wire ++ suf) = some (rs, wire.length) := by
+  have env := env_of_conf hconf
+  have hp : p ∈ S.packets := List.mem_of_find?_eq_some hfind
+  have hmain : D.main = packetStmts S snake p := by
+    unfold confDis at hconf
+    simp only [Bool.and_eq_true, decide_eq_true_eq] at hconf
+    have h1 := List.all_eq_true.mp hconf.1.1.1 p hp
+    simpa [hroot] using h1
+  have hvis : Vis D D.funcs (calleesOf (packetStmts S snake p)) := by
+    refine ⟨⟨D.funcs.length, by simp⟩, ?_⟩
+    unfold confDis at hconf
+    simp only [Bool.and_eq_true, decide_eq_true_eq] at hconf
+    rw [← hmain]
+    exact fun c hc => List.all_eq_true.mp hconf.1.2 c hc
+  simp only [Wire.enc, hfind, bind, Option.bind] at henc
+  have hk : ∀ g ∈ p.fields, isKeyField p.fields g.name = false := fun g _ => noKey_of_keyFree hkf hfind g.name
+  obtain ⟨rs, vars', hr, hrun⟩ := (dis_all S reg snake D env hkf).2.1 p.fields vs p.fields vs [] wire hdom henc
+    p.name p.fields (wire ++ suf) suf fuel D.funcs [] [] rfl hk hfuel hvis
+  refine ⟨rs, ?_, ?_⟩
+  · simpa [ranges, hfind, bind, Option.bind] using hr
+  · have hrun' : runStmts (wire ++ suf) (callFn (wire ++ suf) fuel) D.funcs (packetStmts S snake p) { offset := 0 } =
+        some { offset := wire.length, vars := vars', out := rs } := by simpa [packetStmts] using hrun
+    simp [dissect, hmain, hrun']
+
+/-! ### Non-vacuity: a schema with a length prefix, a list of strings, a list of nested objects and a nested object,
+its canonical dissector, a message, and what the theorem says about them (all evaluated by the kernel). -/
+
+def disS : Schema :=
+  { cfg := { le := true, strPfx := .u8, listPfx := .u16, pad := Pad.default },
+    packets := [
+      { name := "Order", root := true, fields := [
+          { name := "Id", kind := .scalar .u32 },
+          { name := "Note", kind := .dyn },
+          { name := "Tags", kind := .dyn, rep := true },
+          { name := "Legs", kind := .obj "Leg", rep := true },
+          { name := "Main", kind := .obj "Leg" },
+          { name := "Crc", kind := .checksum .u16 "CRC16" }] },
+      { name := "Leg", fields := [
+          { name := "No", kind := .scalar .u8 },
+          { name := "Sym", kind := .fixed 4 Pad.default },
+          { name := "Venue", kind := .dyn }] }] }
+
+def disD : LProg :=
+  { funcs := [{ name := fnName id "Leg", body := packetStmts disS id { name := "Leg", fields := [
+      { name := "No", kind := .scalar .u8 }, { name := "Sym", kind := .fixed 4 Pad.default }, { name := "Venue", kind := .dyn }] } }],
+    main := packetStmts disS id (disS.packets.head!) }
+
+def disV : List Val :=
+  [.int 7, .str [104, 105], .list [.str [97], .str []], .list [.struct [.int 1, .str [65, 66], .str [88]]],
+   .struct [.int 2, .str [67], .str []], .int 0]
+
+example : confDis disS id disD = true := by decide
+example : keyFree disS = true := by decide
+example : dFields disS (disS.packets.head!).fields disV = true := by decide
+example : Wire.enc disS (fun _ => none) "Order" disV [] =
+    some [7, 0, 0, 0, 2, 104, 105, 2, 0, 1, 97, 0, 1, 0, 1, 65, 66, 32, 32, 1, 88, 2, 67, 32, 32, 32, 0, 0, 0] := by decide
+example : ranges disS id "Order" disV =
+    some ([("Order_Id", 0, 4), ("Order_Note", 5, 2), ("Order_Tags", 10, 1), ("Order_Tags", 12, 0), ("Leg_No", 14, 1), ("Leg_Sym", 15, 4),
+           ("Leg_Venue", 20, 1), ("Leg_No", 21, 1), ("Leg_Sym", 22, 4), ("Leg_Venue", 27, 0), ("Order_Crc", 27, 2)], 29) := by decide
+/-- every hypothesis of `dissect_sound` holds for this schema, dissector and message (followed by two more bytes) -/
+example : ∃ rs, ranges disS id "Order" disV = some (rs, 29) ∧
+    dissect disD 3 ([7, 0, 0, 0, 2, 104, 105, 2, 0, 1, 97, 0, 1, 0, 1, 65, 66, 32, 32, 1, 88, 2, 67, 32, 32, 32, 0, 0, 0] ++ [9, 9]) = some (rs, 29) :=
+  dissect_sound disS id disD (fun _ => none) (by decide) (by decide) "Order" (disS.packets.head!) (by decide) (by decide) disV (by decide)
+    [7, 0, 0, 0, 2, 104, 105, 2, 0, 1, 97, 0, 1, 0, 1, 65, 66, 32, 32, 1, 88, 2, 67, 32, 32, 32, 0, 0, 0] (by decide) [9, 9] 3 (by decide)
 
 end FinProtoc.Props
